@@ -35,7 +35,9 @@ PROPS = {
         assumptions=["maphash of distinct address strings does not collide"],
     ),
     "C01": server("plus: every server case runs in a child process; a dead child, a stuck serve loop, a probe ping without "
-                  "reply or an API call that does not return is a direct violation"),
+                  "reply or an API call that does not return is a direct violation; maint engine (oracle only): a Server running "
+                  "TableMaintainer (bootstrap, questionable pings, bucket refresh) against simulated nodes answering with 16 hostile reply "
+                  "strategies (no r dict, malformed error, short id, garbage nodes, truncated, wrong t, ...)", engines=("server", "maint")),
     "C05": server("oracle: bucket index = shared prefix, capacity 8, no duplicate (id,address), no own/zero id, "
                   "NumNodes/Stats/Nodes agree with the snapshot"),
     "C06": server("oracle: every appearing / disappearing table entry classified against the admission and eviction rules"),
